@@ -442,10 +442,10 @@ def initialStep (cfg : Cfg α) (t0 : α) : α := if cfg.fin t0 then clamp t0 (st
 /-- `lsearchk_t::get(state, descent, step_size)` (lsearchk.cpp:36-74); `s0` = the state on entry (`state0`), `t0` = `step_size` -/
 def get (m : Method) (cfg : Cfg α) (φ : Oracle α) (s0 : Eval α) (t0 : α) : Res α :=
   if hasDescent s0.g then
-    let (t, ctx) := shrink φ cfg.maxIter (initialStep cfg t0) ⟨s0, []⟩
-    match grow φ cfg.eps1 s0.f cfg.maxIter t ctx with
-    | .inl (t, ctx) => ⟨false, t, ctx⟩
-    | .inr (t, ctx) => doGet m cfg φ s0 t ctx
+    let p := shrink φ cfg.maxIter (initialStep cfg t0) ⟨s0, []⟩
+    match grow φ cfg.eps1 s0.f cfg.maxIter p.1 p.2 with
+    | .inl q => ⟨false, q.1, q.2⟩
+    | .inr q => doGet m cfg φ s0 q.1 q.2
   else ⟨false, t0, ⟨s0, []⟩⟩
 
 end
